@@ -168,12 +168,20 @@ DTDValidator::validateAttrValue(const   XMLAttDef*      attDef
         return;
     }
 
-    // See whether we are doing multiple values or not
+    // See whether we are doing multiple values or not. A NOTATION or
+    // enumerated value must be exactly ONE of the declared tokens
+    // (VC: Notation Attributes, VC: Enumeration), not a list of them.
     const bool multipleValues =
     (
         (type == XMLAttDef::IDRefs)
         || (type == XMLAttDef::Entities)
         || (type == XMLAttDef::NmTokens)
+    );
+
+    // Types whose value is white space normalized before it is checked
+    const bool collapseValue =
+    (
+        multipleValues
         || (type == XMLAttDef::Notation)
         || (type == XMLAttDef::Enumeration)
     );
@@ -228,7 +236,7 @@ DTDValidator::validateAttrValue(const   XMLAttDef*      attDef
     //   - ...
     //   - attributes with tokenized types, where the attribute appears in the document with a value such that normalization will 
     //     produce a different value from that which would be produced in the absence of the declaration"
-    if (multipleValues && (!isExternal || !getScanner()->getStandalone()))
+    if (collapseValue && (!isExternal || !getScanner()->getStandalone()))
         XMLString::collapseWS(pszTmpVal, getScanner()->getMemoryManager());
 
     XMLCh* valPtr = pszTmpVal;
